@@ -153,6 +153,28 @@ def _pp_post(a, ret, st):
 
 pp.ensures("sub:RetrospectivePlateGenerator._generate_plates", _pp_post)
 
+# ---- the same generator with plates excluded from the permutation (force_include_plate_names): permuted part followed by the untouched part
+ppf = contract(PPG + "._generate_plates@force_include", params=[("self", TObj(PPG, fields={"force_include_plate_names": TSeq(TStr)})), ("screen", T_screen(2)), ("rng", TGenerator())])
+ppf.requires(lambda a: screen_wf(a.screen) + [a.self.fields["force_include_plate_names"].seq.length >= 1])
+ppf.raises("ValueError", lambda a: z3.BoolVal(True), iff=False)
+
+
+def _ppf_post(a, ret, st):
+    from .lemmas import rank_none, rank_complement
+    s = a.screen
+    n = nrows(s)
+    k, r = z3.Int("k!ppf"), z3.Int("r!ppf")
+    sel = st._cur_frame.locals.get("selection_vector")
+    comp = st.ctx.ghost.get("last_not_array")
+    lem = [rank_none(sel.data, n)] + ([rank_complement(sel.data, comp.data, n)] if comp is not None else [])
+    return [("keeps_every_experiment", Using(lem, nrows(ret) == n)),
+            ("rows_are_input_rows", z3.ForAll([k], z3.Implies(z3.And(k >= 0, k < nrows(ret)), z3.Exists([r], z3.And(r >= 0, r < n, row_equal(ret, k, s, r)))),
+                                              patterns=[z3.Select(G(ret, "_sample_names").data, k)])),
+            ("control_name", G(ret, "control_treatment_name") == G(s, "control_treatment_name"))]
+
+
+ppf.ensures("conservation", _ppf_post)
+
 
 # ---- Screen.concat (list length concrete per variant: 1, 2 screens; contents symbolic): rows of every screen, in order
 from pyvc.spec import TPyList
